@@ -37,7 +37,7 @@ these, so that the Go-side oracle and the Lean-side specification are the same f
 generated history.
 -/
 namespace DyntplV.DriverC04
-open DyntplV
+open DyntplV DyntplV.Reg
 
 def hexVal (c : Char) : Option Nat :=
   if '0' ≤ c ∧ c ≤ '9' then some (c.toNat - 48)
